@@ -19,14 +19,14 @@ use vrp_pragmatic::format::{CoordIndexExtraProperty, Location as ApiLocation};
 use vrp_verif_harness::*;
 
 /// S28 switch — which `fleet_reader::create_transport_costs` is in /repo:
-/// 0 = as it stands (a matrix whose name is not a fleet profile is mapped by its list position),
-/// 1 = after `fixes/S28.patch` (every such name is an error),
-/// 2 = after `fixes/S28-alt.patch` (fleet profile names mixed with other names are an error; a set in which *no* name is
-///     a fleet profile is still mapped by position — upstream's unit tests pin that).
+/// 0 = before 83519b0 (a matrix whose name is not a fleet profile is mapped by its list position),
+/// 1 = the rejected alternative `fixes/S28.patch` (every such name is an error),
+/// 2 = as it stands (83519b0: fleet profile names mixed with other names are an error; a set in which *no* name is
+///     a fleet profile is still mapped by position — documented behaviour pinned by upstream's unit tests).
 /// Streams: dev "S28" = known and unknown names mixed, dev "S28u" = no name known. A stream is inside the hypotheses
 /// (oracle `unknown_name_rejected` applies) once the variant rejects it. Keep in step with `readerMode` in VrpModel/C16.lean
 /// and with the `in_hyp` flags of corpus/C16/S28.jsonl.
-const S28_MODE: u8 = 0;
+const S28_MODE: u8 = 2;
 
 thread_local! {
     static INEXACT: Cell<bool> = const { Cell::new(false) };
@@ -130,6 +130,9 @@ fn classify_build(msg: &str) -> String {
         ("duration lengths don't match", "durSize"),
         ("time-aware routing requires all matrices to have timestamp", "missingTimestamp"),
         ("should not use time aware matrix routing with single matrix", "singleTimed"),
+        ("matrix is not square", "notSquare"),
+        ("duplicate timestamps for the same profile", "duplicateTimestamp"),
+        ("error codes and distances have different length", "errorCodesLength"),
         ("duplicate profiles can be passed only for time aware routing", "agnosticProfiles"),
         ("time aware routing", "timedInAgnostic"),
         ("all matrices should have profile set or none of them", "mixedNames"),
@@ -725,8 +728,8 @@ fn gen_core_bad(rng: &mut Rng) -> Value {
     };
     let mut case = json!({"k": "core", "fb": [-3, -4], "ms": ms, "vs": vs, "qs": qs});
     if !dev.is_null() {
-        case["dev"] = dev;
-        case["in_hyp"] = json!(false);
+        // formerly accepted by the builder (repaired in 0684041 / c805ac8): now an ordinary rejected class
+        case["cls"] = dev;
     }
     case
 }
@@ -906,10 +909,13 @@ fn gen_prag(rng: &mut Rng) -> Value {
         }
     }
     if !dev.is_null() {
-        case["dev"] = dev.clone();
-        let fixed = (dev == "S28" && S28_MODE >= 1) || (dev == "S28u" && S28_MODE == 1);
-        if !fixed {
+        // D1 / D2 / D3 are repaired in /repo: plain class labels; S28 / S28u depend on the reader variant
+        let outside = (dev == "S28" && S28_MODE == 0) || (dev == "S28u" && S28_MODE != 1);
+        if outside {
+            case["dev"] = dev.clone();
             case["in_hyp"] = json!(false);
+        } else {
+            case["cls"] = dev.clone();
         }
     }
     case
